@@ -62,6 +62,13 @@ def fault_variants(rnd, data, index):
         ix = bytearray(index)
         ix[12:20] = struct.pack("<Q", struct.unpack("<Q", bytes(ix[12:20]))[0] + 16)
         out.append(("mismatching index", data, bytes(ix)))
+        # stale indexes: of a longer recording (larger than the data file), of a shorter one, and a data file cut inside its
+        # metadata beside the complete index
+        out.append(("stale longer index", data, index + index))
+        out.append(("stale shorter index", data + data, index))
+        if len(data) > 60:
+            out.append(("data cut beside a complete index", data[:rnd.randint(4, min(len(data) - 1, len(index)))], index))
+        out.append(("garbage index", data, bytes(rnd.getrandbits(8) for _ in range(rnd.randint(1, 80)))))
     return out
 
 
@@ -257,7 +264,7 @@ def run(ctx):
     obs = sorted(set(observations))
     return dict(violations=violations[:5], disagreements=disagreements[:20], notes=["observation: " + o for o in obs[:4]],
                 coverage=dict(evaluations=stats["steps"] + stats["writer"], distinct_nontrivial=len(distinct),
-                              rule="fault cases per generated file: valid, bad tag, metadata cut at a random offset, unknown type code, mismatching index, index only; "
+                              rule="fault cases per generated file: valid, bad tag, metadata cut at a random offset, unknown type code, mismatching / stale longer / stale shorter / garbage index, data cut beside a complete index, index only; "
                                    "x {path, stream} x {index beside the file} x {read, read_metadata, open}; for open: reads, close, reads after close (must raise), "
                                    "repeated close, with-block; TdmsWriter x {stream, stream+index stream, path, path+index} x {normal, exception inside the block}; "
                                    "descriptors measured through /proc/self/fd without gc.collect(); distinct_nontrivial = distinct (case, source, index, api) combinations",
